@@ -164,7 +164,9 @@ func Core() []*Schema {
 		St("DepS", F("a", P("int32")), Dep(F("old", P("int64"))), F("z", P("byte"))),
 		St("DepArr", F("ds", A(N("DepS"))), F("tail", P("uint16"))),
 		Msg("DepHolder", MF(1, "ds", A(N("DepS"))), MF(2, "after", P("uint32")), MF(3, "one", N("DepS")), MF(4, "dm", M("uint8", N("DepS")))),
-		Un("DepU", Br(1, St("DepB", F("d", N("DepS")), Dep(F("gone", P("guid"))), F("k", P("uint16")))))))
+		Un("DepU", Br(1, St("DepB", F("d", N("DepS")), Dep(F("gone", P("guid"))), F("k", P("uint16")))),
+			Branch{Disc: 2, Def: St("DepOldBranch", F("x", P("int32"))), Deprecated: true},
+			Branch{Disc: 3, Def: Msg("DepOldMsg", MF(1, "y", P("string"))), Deprecated: true})))
 
 	// 8e. imported definitions (separate and combined import modes): typed enums, a struct,
 	// a message and a union from a library file, used in every position
